@@ -172,7 +172,8 @@ def _check_path_function_unique(jobs, path_spec, path_function):
         If paths generated with given path function are not unique.
 
     """
-    job_paths = Counter(path_function(job) for job in jobs)
+    # Compare normalized paths: 'a/./x' and 'a/x' are the same location.
+    job_paths = Counter(os.path.normpath(path_function(job)) for job in jobs)
     duplicates = {path for path, count in job_paths.items() if count > 1}
     if len(duplicates) > 0:
         # Log paths generated more than once
@@ -307,14 +308,14 @@ def _check_directory_structure_validity(paths):
         If a path is repeated as both a leaf and a node in the directory structure.
 
     """
-    paths = list(paths)
+    # Compare normalized paths: 'a/./x' and 'a/x' are the same location.
+    paths = [os.path.normpath(dst) for dst in paths]
     for dst in paths:
-        normalized = os.path.normpath(dst)
-        if os.path.isabs(normalized) or normalized.split(os.path.sep)[0] == os.pardir:
+        if os.path.isabs(dst) or dst.split(os.path.sep)[0] == os.pardir:
             raise RuntimeError(
                 f"The path '{dst}' points outside of the target directory."
             )
-        if normalized == os.curdir and len(paths) > 1:
+        if dst == os.curdir and len(paths) > 1:
             raise RuntimeError(
                 f"The path '{dst}' is both a leaf and node in the path structure."
             )
